@@ -1168,7 +1168,55 @@ class Analysis(object):
                                 'text': 'loop position advances by a wire value (%s) that may be zero: the loop need not terminate'
                                 % ', '.join(sorted(lab))})
 
+    def _nonzero_location_guard(self, fname, info, step, reg):
+        """the value is re-loaded from a memory location (an out-parameter object such as `&interval`) whose content was
+        tested against zero by a dominating branch, and nothing writes the object after that test"""
+        fn = info.fn
+        d = info.defs.get(reg)
+        while d is not None and d.op in ('zext', 'sext', 'trunc', 'freeze') and d.args[0][1][0] == 'r':
+            d = info.defs.get(d.args[0][1][1])
+        if d is None or d.op != 'load':
+            return False
+        loc = self.load_location(fname, d)
+        if not loc:
+            return False
+        objs = set(o for (o, _) in loc)
+        # every write to the object (stores, calls that are handed its address)
+        writers = []
+        for b in fn.order:
+            for k, ins in enumerate(fn.blocks[b]):
+                if ins.op == 'store' and objs & set(o for (o, _) in self.origin_of(fname, ins.args[1])):
+                    writers.append((b, k))
+                elif ins.op == 'call' and any(v[0] == 'r' and objs & set(o for (o, _) in self.origin_of(fname, (t, v)))
+                                              for (t, v) in ins.args):
+                    writers.append((b, k))
+        for g in fn.order:
+            term = fn.blocks[g][-1] if fn.blocks[g] else None
+            if term is None or term.op != 'br' or len(term.x['targets']) != 2 or term.args[0][1][0] != 'r':
+                continue
+            c = info.defs.get(term.args[0][1][1])
+            if c is None or c.op != 'icmp':
+                continue
+            (t1, a), (t2, b2) = c.args
+            if b2 != ('c', 0) or a[0] != 'r':
+                continue
+            la = info.defs.get(a[1])
+            while la is not None and la.op in ('zext', 'sext', 'trunc', 'freeze') and la.args[0][1][0] == 'r':
+                la = info.defs.get(la.args[0][1][1])
+            if la is None or la.op != 'load' or self.load_location(fname, la) != loc:
+                continue
+            pred = c.x['pred']
+            nz = term.x['targets'][0] if pred in ('ne', 'ugt', 'sgt') else (term.x['targets'][1] if pred in ('eq', 'ule') else None)
+            if not nz or not info.dominates(nz, step.bb) or len(info.pred.get(nz, [])) != 1:
+                continue
+            kcmp = fn.blocks[g].index(la)
+            if all((wb == g and wk < kcmp) or (wb != g and info.dominates(wb, g)) for (wb, wk) in writers):
+                return True
+        return False
+
     def _nonzero_guard(self, fname, info, step, reg):
+        if self._nonzero_location_guard(fname, info, step, reg):
+            return True
         anc = self.ancestry(fname, reg)
         fn = info.fn
         for g in fn.order:
